@@ -291,16 +291,16 @@ func c03(x *mon.Ctx) {
 			mod("body-is-array", "", []byte(`[`+string(body)+`]`), nil, "reject")
 			// id / version / levels, properly signed
 			for name, edit := range map[string][2]string{
-				"wrong-id":            {`"id":"` + map[string]string{"tcb": "TDX", "qe": "TD_QE"}[d.name] + `"`, `"id":"SGX"`},
-				"other-documents-id":  {`"id":"` + map[string]string{"tcb": "TDX", "qe": "TD_QE"}[d.name] + `"`, `"id":"` + map[string]string{"tcb": "TD_QE", "qe": "TDX"}[d.name] + `"`},
-				"lowercase-id":        {`"id":"` + map[string]string{"tcb": "TDX", "qe": "TD_QE"}[d.name] + `"`, `"id":"` + map[string]string{"tcb": "tdx", "qe": "td_qe"}[d.name] + `"`},
-				"wrong-version":       {`"version":` + map[string]string{"tcb": "3", "qe": "2"}[d.name], `"version":` + map[string]string{"tcb": "2", "qe": "3"}[d.name]},
-				"version-zero":        {`"version":` + map[string]string{"tcb": "3", "qe": "2"}[d.name], `"version":0`},
-				"version-plus-256":    {`"version":` + map[string]string{"tcb": "3", "qe": "2"}[d.name], `"version":` + map[string]string{"tcb": "259", "qe": "258"}[d.name]},
-				"version-as-string":   {`"version":` + map[string]string{"tcb": "3", "qe": "2"}[d.name], `"version":"` + map[string]string{"tcb": "3", "qe": "2"}[d.name] + `"`},
-				"version-fractional":  {`"version":` + map[string]string{"tcb": "3", "qe": "2"}[d.name], `"version":` + map[string]string{"tcb": "3.5", "qe": "2.5"}[d.name]},
-				"id-missing":          {`"id":"` + map[string]string{"tcb": "TDX", "qe": "TD_QE"}[d.name] + `",`, ``},
-				"version-missing":     {`"version":` + map[string]string{"tcb": "3", "qe": "2"}[d.name] + `,`, ``},
+				"wrong-id":           {`"id":"` + map[string]string{"tcb": "TDX", "qe": "TD_QE"}[d.name] + `"`, `"id":"SGX"`},
+				"other-documents-id": {`"id":"` + map[string]string{"tcb": "TDX", "qe": "TD_QE"}[d.name] + `"`, `"id":"` + map[string]string{"tcb": "TD_QE", "qe": "TDX"}[d.name] + `"`},
+				"lowercase-id":       {`"id":"` + map[string]string{"tcb": "TDX", "qe": "TD_QE"}[d.name] + `"`, `"id":"` + map[string]string{"tcb": "tdx", "qe": "td_qe"}[d.name] + `"`},
+				"wrong-version":      {`"version":` + map[string]string{"tcb": "3", "qe": "2"}[d.name], `"version":` + map[string]string{"tcb": "2", "qe": "3"}[d.name]},
+				"version-zero":       {`"version":` + map[string]string{"tcb": "3", "qe": "2"}[d.name], `"version":0`},
+				"version-plus-256":   {`"version":` + map[string]string{"tcb": "3", "qe": "2"}[d.name], `"version":` + map[string]string{"tcb": "259", "qe": "258"}[d.name]},
+				"version-as-string":  {`"version":` + map[string]string{"tcb": "3", "qe": "2"}[d.name], `"version":"` + map[string]string{"tcb": "3", "qe": "2"}[d.name] + `"`},
+				"version-fractional": {`"version":` + map[string]string{"tcb": "3", "qe": "2"}[d.name], `"version":` + map[string]string{"tcb": "3.5", "qe": "2.5"}[d.name]},
+				"id-missing":         {`"id":"` + map[string]string{"tcb": "TDX", "qe": "TD_QE"}[d.name] + `",`, ``},
+				"version-missing":    {`"version":` + map[string]string{"tcb": "3", "qe": "2"}[d.name] + `,`, ``},
 			} {
 				nr := strings.Replace(raw, edit[0], edit[1], 1)
 				if nr == raw {
@@ -362,7 +362,11 @@ func c03(x *mon.Ctx) {
 			selfSigned := world.Issue(world.TcbSignTemplate(world.Far), nil, world.NewKey())
 			resigned("signer-right-name-self-signed", selfSigned, base.PKI.Root, "reject")
 			resigned("signer-right-name-self-signed-as-its-own-root", selfSigned, selfSigned, "reject")
-			wrongName := world.Issue(func() *x509Cert { t := world.TcbSignTemplate(world.Far); t.Subject = world.Name("Intel SGX TCB Signing 2"); return t }(), base.PKI.Root, world.NewKey())
+			wrongName := world.Issue(func() *x509Cert {
+				t := world.TcbSignTemplate(world.Far)
+				t.Subject = world.Name("Intel SGX TCB Signing 2")
+				return t
+			}(), base.PKI.Root, world.NewKey())
 			resigned("signer-wrong-name-issued-by-root", wrongName, base.PKI.Root, "reject")
 			// a right-named signer under a root-named certificate that is not self-signed (issued by the real root)
 			fakeRoot := world.Issue(func() *x509Cert { t := world.RootTemplate(world.Far); return t }(), base.PKI.Root, world.NewKey())
